@@ -29,6 +29,54 @@ CLAIMED.update({
         ref='5/C18'),
 })
 
+CLAIMED.update({
+    'C02': dict(
+        text='Partial: fold_line (the routine that decides where cif_write breaks long text-field lines) is proved, for symbolic target length and '
+             'window and all strings below MAXN units with all six loops closed by invariants, never to split a surrogate pair, never to put a '
+             'semicolon first on a continuation line of an unprefixed field, to keep lines that fit whole, and to exceed the window only when no '
+             'admissible point exists. Byte-level output and re-parse equivalence are not decided.',
+        note='Trusted: CBMC; ICU u_strlen by assumed contract. Undecided clauses are listed in the evidence on every run.', ref='5/C02'),
+    'C07': dict(
+        text='Partial: the serialisation buffer primitives that carry every stored value (cif_buf_write / cif_buf_read) are proved to append / deliver '
+             'exactly the bytes given, preserve earlier content across growth, terminate, and fail cleanly. SQL column mapping and the composite '
+             'serialise/deserialise round trip are not decided.',
+        note='Trusted: CBMC incl. its malloc/realloc/memcpy models.', ref='5/C07'),
+    'C10': dict(
+        text='Partial and bounded: cif_value_parse_numb agrees with a recogniser of the CIF numeric syntax on ALL strings shorter than MAXT code units '
+             '(complete unwinding, unwinding assertions on) and leaves the value untouched on refusal. Correct rounding of the bignum conversions is '
+             'outside the reach of CBMC and explicitly not decided.',
+        note='Bounded stand-in (string length < 8 quick / 12 thorough); never counted as proved obligations in the evidence.', ref='5/C10',
+        technique='CBMC bounded check of the real function against an executable grammar oracle (complete unwinding); rounding: not decided'),
+    'C11': dict(
+        text='cif_parse() is loop-free: its contract - the documented version/encoding decision table as a pure expression of the options and the stream '
+             'prefix - is proved for ALL option values and ALL first 16 bytes and stream lengths (complete). ICU behaviour and the second stage in '
+             'cif_parse_internal are assumed / not yet decided.',
+        note='Trusted: CBMC; assumed contracts for fread/ferror/ICU converter API/cif_parse_internal (they record their arguments).', ref='5/C11'),
+    'C14': dict(
+        text='Per-level contracts on the real walker (walk_item, walk_packet, walk_loop, walk_loops; walk_container and cif_walk in progress), each enforced '
+             'with its callees replaced by contracts, loops closed by invariants. Ghost monitors decide: no callback after END/error, no sibling after '
+             'SKIP_SIBLINGS, every child once and in order, start before children before end, handles released, result-code protocol.',
+        note='Trusted: CBMC; assumed contracts of the getters/iterator (they return what is stored; close succeeds); packet entries laid out in an array.',
+        ref='5/C14'),
+    'C19': dict(
+        text='Whole-view contracts on the list operations get/set/remove_element_at (every slot of the element array is constrained), proved for all lists '
+             'up to MAXL slots with the shift loop closed by an invariant; insert_element_at and tables/packets are pending.',
+        note='Trusted: CBMC; abstract contracts of clone/create/free/clean as callees.', ref='5/C19'),
+})
+
+CLAIMED.update({
+    'C13': dict(
+        text='Partial: the CIF 1.1 gatekeeper cif_validate_cif11_characters (bounded: all strings below MAXN units, all code-unit values), write_quoted '
+             '(line-length accounting) and fold_line (no ";" in column 1 of an unprefixed continuation line, unbounded) are under contract. '
+             'Refusal paths of write_item/write_char and re-parse equivalence are not decided.',
+        note='Trusted: CBMC; models of u_fprintf/u_fputc. One job is a bounded stand-in and is listed as such in the evidence.', ref='5/C13'),
+    'C17': dict(
+        text='Allocating functions under contract re-verified with --malloc-may-fail --malloc-fail-null --memory-leak-check: cif_unicode_normalize '
+             '(all three allocation sites incl. the retry and the terminator realloc) and cif_buf_write: documented error code, outputs untouched, '
+             'no leak, no invalid free, no out-of-bounds write on any failure path.',
+        note='Scope = the functions listed in the evidence; allocations inside SQLite/ICU are not decided.', ref='5/C17'),
+})
+
 NOT_APPLICABLE = {
     'C04': 'The abstract state (tables, keys, cascades, triggers) and every transition are SQL text interpreted by SQLite at run time; a C-level '
            'contract can only say that the SQL string was handed to SQLite. A relational contract per statement would be a hand-written model '
@@ -51,7 +99,7 @@ def main():
                 'evidence_file': 'evidence/%s.json' % i,
                 'replay_cmd_template': 'cat {path}   # self-contained C file; its trailing comment holds the native build command and the native result',
                 'engine': 'cbmc-contracts',
-                'level_claimed': {'category': 'proof', 'text': c['text'], 'design_ref': c['ref']},
+                'level_claimed': {'category': c.get('category', 'proof'), 'text': c['text'], 'design_ref': c['ref']},
                 'level_note': c['note'],
                 'technique': c.get('technique', TECH),
             })
